@@ -555,7 +555,7 @@ def run(ctx):
             c["id"] = "c0"
             process(ctx, hbin, [c], stats, samples)
     else:
-        total = ctx.pick(3000, 50000)
+        total = ctx.pick(2000, 50000)
         cases = gen_cases(ctx, total)
         for k in range(0, len(cases), 3000):
             process(ctx, hbin, cases[k:k + 3000], stats, samples)
@@ -592,8 +592,8 @@ def run(ctx):
         "trusted_base": [
             "Coq 8.16.1 kernel; cluster theorems closed under the global context; touch theorems use the stdlib real-number axioms listed in axioms_used",
             "extraction (ExtrOcamlBasic, ExtrOcamlNativeString only) + ocaml/cluster_driver.ml (touch matrix passed as an OCaml closure over the exported string)",
-            "harness/c07_cluster.c builds the context through the private API; the touch predicate is the implementation's own, exported as a matrix; its relation to the exact predicate is tested outside an 8u margin, proved only under the standard rounding model (C07_touch_float_sound_partial)",
-            "mps_mcluster modelled at block-merge granularity (every order of base selection); thread interleavings inside a worker and the unlocked read of root->prev by the main thread are exercised with real threads only, not proved",
+            "harness/c07_cluster.c builds the context through the private API; the touch predicate is the implementation's own, exported as a matrix; its relation to the exact predicate is tested outside an 8u margin, proved only under rounding models (C07_touch_float_sound_partial, C07_ftouch_flocq_partial with Flocq binary64 roundings, C07_dtouch_sound_partial)",
+            "mps_mcluster modelled at block-merge granularity (every order of base selection); interleavings explored with harness/vf_sched.c (its model of mutex/condvar semantics is trusted; code between two pthread calls runs atomically, sequentially consistent memory) plus real threads; not proved below that granularity",
             "python predicate (union-find components, partition, refinement) in checks/C07.py",
         ],
     }
